@@ -55,11 +55,28 @@ def run(tier):
     bins = gox.build(os.path.join(C.scratch(), 'gox'), ['c13x'])
     L = 6 if tier == 'thorough' else 5
     LC = 4 if tier == 'thorough' else 3
-    of = 17
+    # a cycle through two variables (@{p} = @{q}/1, @{q} = @{p}/2): first in a process of its own with a small stack and an
+    # address-space limit -- a stack overflow or memory exhaustion is fatal in Go and would take the explorer with it
+    import resource
+
+    def limits():
+        resource.setrlimit(resource.RLIMIT_AS, (6 << 30, 6 << 30))
+    pr = subprocess.run([bins['c13x'], '-probe-cycle'], capture_output=True, text=True, preexec_fn=limits, timeout=600)
+    cyc = []
+    if pr.returncode == 0 and pr.stdout.startswith('error:'):
+        cyc = ['-cycles']          # survives: the two lines join the alphabet of the exhaustive part
+    elif pr.returncode == 0:
+        fnd.report('missing-error class=self cause=indirect-cycle', 'Resolve says `%s` for a preamble whose variables refer to each other (@{p} = @{q}/1, @{q} = @{p}/2)' % pr.stdout.strip(),
+                   {'preamble_lines': ['@{p} = @{q}/1', '@{q} = @{p}/2', '@{exec_path} = /bin/e']})
+    else:
+        last = [l for l in pr.stderr.split('\n') if 'fatal error' in l or 'exceeds' in l or 'out of memory' in l][:2]
+        fnd.report('crash class=self cause=indirect-cycle', 'Resolve does not return on a preamble whose variables refer to each other (@{p} = @{q}/1, @{q} = @{p}/2): the process dies (exit %d: %s)' % (pr.returncode, ' / '.join(last) or pr.stderr[-200:]),
+                   {'preamble_lines': ['@{p} = @{q}/1', '@{q} = @{p}/2', '@{exec_path} = /bin/e']})
+    of = 17 + (2 if cyc else 0)
     pool = ThreadPoolExecutor(C.NPROC)
 
     def shard(i):
-        r = subprocess.run([bins['c13x'], '-len', str(L), '-shard', str(i), '-of', str(of)], capture_output=True, text=True)
+        r = subprocess.run([bins['c13x'], '-len', str(L), '-shard', str(i), '-of', str(of)] + cyc, capture_output=True, text=True)
         if r.returncode != 0:
             raise SystemExit('HARNESS ERROR: c13x shard %d: %s' % (i, r.stderr[-1000:]))
         return json.loads(r.stdout)
@@ -82,7 +99,7 @@ def run(tier):
         fnd.report(v['sig'], v['what'] + ' -- history: ' + ' || '.join(v['input']), {'history': v['input']})
     ev.add(builtin_table_histories=tj['sequences'], builtin_table_files=tj['files'], builtin_table_history_depth=depth)
     # conformance of the reference expander with the reference parser
-    dump = subprocess.run([bins['c13x'], '-len', str(LC), '-dump'], capture_output=True, text=True)
+    dump = subprocess.run([bins['c13x'], '-len', str(LC), '-dump'] + cyc, capture_output=True, text=True)
     cases = [json.loads(l) for l in dump.stdout.split('\n') if l.strip()]
     tmpdir = os.path.join(C.scratch(), 'c13'); os.makedirs(tmpdir, exist_ok=True)
     verdicts = list(pool.map(lambda c: parser_verdict(c['lines'], tmpdir), cases))
